@@ -212,6 +212,11 @@ def dask_out_rule(ck, prog, rule):
         ("np.multiply(wd32, 1j, out=(wd32,)) on Dask data  [wd32 *= 1j]", uf("multiply", 2, 1), lambda z: [z, cj], lambda z: [z], ("IntensitySignal", "float32")),
         ("np.greater(wd64, c, out=(wd64,)) on Dask data", uf("greater", 2, 1), lambda z: [z, sc], lambda z: [z], ("IntensitySignal", "float64")),
         ("np.modf(wd32, out=(None, wd64)) on Dask data", uf("modf", 1, 2), lambda z: [z], lambda z: [NONE, mk("IntensitySignal", "float64", "wd64")], ("IntensitySignal", "float32")),
+        # the target decides what it may hold: its class (not the class of the first operand) validates the new contents
+        ("np.absolute(zb64, out=(w32,)) on Dask data: a BasebandSignal operand, an IntensitySignal target", uf("absolute", 1, 1), lambda z: [z],
+         lambda z: [mk("IntensitySignal", "float32", "w32")], ("BasebandSignal", "complex64")),
+        ("np.add(w32, c, out=(r32,)) on Dask data: an IntensitySignal operand, a RadioSignal target", uf("add", 2, 1), lambda z: [z, sc],
+         lambda z: [mk("RadioSignal", "float32", "r32")], ("IntensitySignal", "float32")),
         ("np.add(wd32, B(3, N, 2), out=(wd32,)) on Dask data: the result is larger than the target", uf("add", 2, 1),
          lambda z: [z, Num(sp.Symbol("B3"), kind="array", shape=(sp.Integer(3), N, 2), tag="data", backend="numpy", dtype=ExtV("numpy.float32"))], lambda z: [z],
          ("IntensitySignal", "float32")),
